@@ -14,3 +14,6 @@ def run(ctx, rep):
     sync.rule_O4c_fresh_rep(mod, rep)
     sync.rule_O9_supernode_extension(mod, rep)
     sync.rule_O9b_relaxed_marking(mod, rep)
+    from ..rules import more
+    more.rule_kernel_columns(mod, rep)
+    more.rule_release_after(mod, rep)
